@@ -149,14 +149,11 @@ theorem reqView_cons_not_mod {s : State} (h : Inv s) (r : ReqId) (v : ReqView) (
       exact h.x.ctxCons r.ctx x hx
 
 /-- the genesis exported after the preparation is valid (the statement of `C19.validate_after_prep`, proved here
-    from the same invariants so that this file does not depend on a property file) -/
-theorem validate_after_prep' {cfg : Config} {p : Params} {h0 t0 : Int} (hc : CfgOK cfg p) {s : State}
-    (hr : Reachable cfg p h0 t0 s) : validateG (exportG (prep s).s) = true := by
-  have hinv := reachable_inv hc hr
-  have hesc : ∀ pv, (get s.earned pv).isSome → pv ≠ s.cfg.escrow := fun pv h e => earnOK hr pv h (Or.inl e)
+    from the invariants themselves, for any state that satisfies them) -/
+theorem validate_after_prep_of {s : State} (hinv : Inv s) (hearn : EarnOK s) (hrec : RecOK s)
+    (hctx : ∀ c x, get s.ctxs c = some x → ctxFieldsOK x = true) : validateG (exportG (prep s).s) = true := by
+  have hesc : ∀ pv, (get s.earned pv).isSome → pv ≠ s.cfg.escrow := fun pv h e => hearn pv h (Or.inl e)
   obtain ⟨hnp, b', hs, _⟩ := prep_spec hinv hesc
-  have hrec := recOK hr
-  have hctx := ctxsFieldsOK hc hr
   have e1 : (prep s).s.params = s.params := by rw [hs]; rfl
   have e2 : (prep s).s.defs = s.defs := by rw [hs]; rfl
   have e3 : (prep s).s.bindings = s.bindings := by rw [hs]; rfl
@@ -186,20 +183,30 @@ theorem validate_after_prep' {cfg : Config} {p : Params} {h0 t0 : Int} (hc : Cfg
     simp only [Bool.and_eq_true, decide_eq_true_eq]
     exact ⟨⟨this, rfl⟩, rfl⟩
 
-/-- **The restarted chain starts in a state that satisfies every invariant.** For every reachable state `s`
-    the zero-height preparation, the export and the import into a fresh chain all succeed, and the resulting
+/-- everything the restart needs of a state, and gives back: the invariants `Inv` together with the four side
+    invariants that have their own inductions (no module account earns, every stored record is valid on its own,
+    every stored context is valid on its own, one binding record per key) -/
+structure InvAll (s : State) : Prop where
+  inv : Inv s
+  earn : EarnOK s
+  recs : RecOK s
+  ctxf : ∀ c x, get s.ctxs c = some x → ctxFieldsOK x = true
+  nodup : NodupKeys s.bindings
+
+/-- **The restarted chain starts in a state that satisfies every invariant.** For every state `s` satisfying the
+    invariants the zero-height preparation, the export and the import into a fresh chain all succeed, and the resulting
     state — the service store rebuilt from the genesis alone, the balances as the preparation left them —
-    satisfies `Inv`: deposits and escrow exactly backed, indexes consistent, queues well-formed, no orphans. -/
-theorem restart_inv {cfg : Config} {p : Params} {h0 t0 : Int} (hc : CfgOK cfg p) {s : State}
-    (hr : Reachable cfg p h0 t0 s) (height time : Int) :
-    ∃ s', restart s height time = some s' ∧ Inv s' ∧ s'.cfg = s.cfg ∧ s'.params = s.params ∧
+    satisfies them again: deposits and escrow exactly backed, indexes consistent, queues well-formed, no orphans. -/
+theorem restart_invAll {s : State} (hall : InvAll s) (height time : Int) :
+    ∃ s', restart s height time = some s' ∧ InvAll s' ∧ s'.cfg = s.cfg ∧ s'.params = s.params ∧
       s'.height = height ∧ s'.time = time ∧ exportG s' = exportG (prep s).s := by
-  have hinv := reachable_inv hc hr
+  have hinv := hall.inv
   have hB := hinv.b
-  have hesc : ∀ pv, (get s.earned pv).isSome → pv ≠ s.cfg.escrow := fun pv h e => earnOK hr pv h (Or.inl e)
+  have hearn := hall.earn
+  have hesc : ∀ pv, (get s.earned pv).isSome → pv ≠ s.cfg.escrow := fun pv h e => hearn pv h (Or.inl e)
   obtain ⟨hnp, b', hP, hb0, _, _⟩ := prep_spec hinv hesc
-  have hv := validate_after_prep' hc hr
-  have hnd := bindings_nodupKeys hr
+  have hv := validate_after_prep_of hinv hearn hall.recs hall.ctxf
+  have hnd := hall.nodup
   -- what the preparation left of the exported components
   have e1 : (prep s).s.params = s.params := by rw [hP]; rfl
   have e2 : (prep s).s.defs = s.defs := by rw [hP]; rfl
@@ -208,7 +215,7 @@ theorem restart_inv {cfg : Config} {p : Params} {h0 t0 : Int} (hc : CfgOK cfg p)
   have hdep : balOf (prep s).s.bank.bal s.cfg.deposit = balOf s.bank.bal s.cfg.deposit :=
     prep_bal_other s.cfg.deposit (fun e => hinv.static.ed e.symm)
       (fun r v hv e => reqView_cons_not_mod hinv r v hv (Or.inr (Or.inl e)))
-      (fun pv h e => earnOK hr pv h (Or.inr (Or.inl e)))
+      (fun pv h e => hearn pv h (Or.inr (Or.inl e)))
   have hescb : balOf (prep s).s.bank.bal s.cfg.escrow = 0 := by rw [hP]; exact hb0
   -- the import
   let L := entries (prep s).s.bindings
@@ -260,7 +267,41 @@ theorem restart_inv {cfg : Config} {p : Params} {h0 t0 : Int} (hc : CfgOK cfg p)
     rw [e2]; exact foldl_set_nil _ (nodupKeys_entries _)
   have hcfg : S.cfg = s.cfg := f1
   have hpar : S.params = s.params := by show s2.params = _; rw [f2]; exact e1
-  refine ⟨S, hrestart, ?_, hcfg, hpar, f3, f4, ?_⟩
+  have hexp : exportG S = exportG (prep s).s := by
+      show ({ params := s2.params, defs := entries s2.defs, bindings := entries s2.bindings,
+              withdraw := entries ((entries (prep s).s.withdraw).foldl (fun m e => set m e.1 e.2) []),
+              ctxs := entries ((entries (prep s).s.ctxs).foldl (fun m e => set m e.1 e.2) []) } : GenesisState)
+          = exportG (prep s).s
+      rw [f2, f5, hbind, foldl_set_nil _ (nodupKeys_entries _), foldl_set_nil _ (nodupKeys_entries _)]
+      show ({ params := (prep s).s.params,
+              defs := entries ((entries (prep s).s.defs).foldl (fun m e => set m e.1 e.2) []),
+              bindings := entries s.bindings, withdraw := entries (entries (prep s).s.withdraw),
+              ctxs := entries (entries (prep s).s.ctxs) } : GenesisState) = exportG (prep s).s
+      rw [foldl_set_nil _ (nodupKeys_entries _), entries_idem, entries_idem, entries_idem, ← e3]
+      rfl
+  have hwd : S.withdraw = entries s.withdraw := by
+    show (entries (prep s).s.withdraw).foldl (fun m e => set m e.1 e.2) [] = _
+    have e4 : (prep s).s.withdraw = s.withdraw := by rw [hP]; rfl
+    rw [e4]; exact foldl_set_nil _ (nodupKeys_entries _)
+  refine ⟨S, hrestart, ⟨?_, ?_, ?_, ?_, ?_⟩, hcfg, hpar, f3, f4, ?_⟩
+  rotate_left
+  · -- nobody has earnings on the new chain
+    intro a ha
+    have : get ([] : Map Addr Nat) a = get S.earned a := by show _ = get s2.earned a; rw [f12]; rfl
+    rw [← this] at ha; cases ha
+  · -- the records are the exported ones
+    refine ⟨?_, ?_, ?_⟩
+    · intro n d hg; rw [hdefs, get_entries] at hg; exact hall.recs.defs n d hg
+    · intro k b hg
+      have : get s.bindings k = some b := by rw [← hbind]; exact hg
+      exact hall.recs.binds k b this
+    · intro o a hg; rw [hwd, get_entries] at hg; exact hall.recs.wd o a hg
+  · intro c x hx
+    obtain ⟨x0, hx0, rfl⟩ := hctxget c x hx
+    exact hall.ctxf c x0 hx0
+  · show NodupKeys s2.bindings
+    rw [hbind]; exact hnd
+  · exact hexp
   · refine { static := ?_, b := ?_, x := ?_, m := ?_, bound := ?_ }
     · show Static S.cfg S.params
       rw [hcfg, hpar]; exact hinv.static
@@ -377,18 +418,60 @@ theorem restart_inv {cfg : Config} {p : Params} {h0 t0 : Int} (hc : CfgOK cfg p)
       intro r q hq
       have : get ([] : Map ReqId Req) r = some q := hq
       cases this
-  · -- the second export is the first
-    show ({ params := s2.params, defs := entries s2.defs, bindings := entries s2.bindings,
-            withdraw := entries ((entries (prep s).s.withdraw).foldl (fun m e => set m e.1 e.2) []),
-            ctxs := entries ((entries (prep s).s.ctxs).foldl (fun m e => set m e.1 e.2) []) } : GenesisState)
-        = exportG (prep s).s
-    rw [f2, f5, hbind, foldl_set_nil _ (nodupKeys_entries _), foldl_set_nil _ (nodupKeys_entries _)]
-    show ({ params := (prep s).s.params,
-            defs := entries ((entries (prep s).s.defs).foldl (fun m e => set m e.1 e.2) []),
-            bindings := entries s.bindings, withdraw := entries (entries (prep s).s.withdraw),
-            ctxs := entries (entries (prep s).s.ctxs) } : GenesisState) = exportG (prep s).s
-    rw [foldl_set_nil _ (nodupKeys_entries _), entries_idem, entries_idem, entries_idem, ← e3]
-    rfl
+/-- every operation preserves the whole package -/
+theorem step_invAll (s : State) (op : Op) (h : InvAll s) (hw : WF s op) : InvAll (step s op).1 := by
+  refine ⟨step_inv _ op h.inv hw, ?_, step_vk s op hw h.recs, ?_, step_bk s op h.nodup⟩
+  · intro a ha
+    obtain ⟨hcfg, hsub⟩ := step_ek s op
+    have hm : (step s op).1.modAcct a ↔ s.modAcct a := by unfold State.modAcct; rw [hcfg]
+    rw [hm]
+    rcases hsub a ha with h1 | h1
+    · exact h.earn a h1
+    · cases op with
+      | respond r pv code out =>
+        simp only [Op.earners, List.mem_singleton] at h1
+        subst h1
+        exact hw
+      | _ => simp [Op.earners] at h1
+  · intro c y hy
+    rcases step_ctx_origin h.inv op hw c y hy with ⟨x, hx, he⟩ | ⟨_, _, hf⟩
+    · exact he.fields (h.ctxf c x hx)
+    · exact hf
+
+theorem reachable_invAll {cfg : Config} {p : Params} {h0 t0 : Int} (hc : CfgOK cfg p) {s : State}
+    (hr : Reachable cfg p h0 t0 s) : InvAll s :=
+  ⟨reachable_inv hc hr, earnOK hr, recOK hr, ctxsFieldsOK hc hr, bindings_nodupKeys hr⟩
+
+theorem restart_inv {cfg : Config} {p : Params} {h0 t0 : Int} (hc : CfgOK cfg p) {s : State}
+    (hr : Reachable cfg p h0 t0 s) (height time : Int) :
+    ∃ s', restart s height time = some s' ∧ Inv s' ∧ s'.cfg = s.cfg ∧ s'.params = s.params ∧
+      s'.height = height ∧ s'.time = time ∧ exportG s' = exportG (prep s).s := by
+  obtain ⟨s', h1, h2, h3⟩ := restart_invAll (reachable_invAll hc hr) height time
+  exact ⟨s', h1, h2.inv, h3⟩
+
+/-- states reachable from the empty genesis by well-formed operations **and any number of zero-height restarts**
+    (each at an arbitrary new height and time) -/
+inductive ReachableR (cfg : Config) (p : Params) (h0 t0 : Int) : State → Prop
+  | init : ReachableR cfg p h0 t0 (genesis cfg p h0 t0)
+  | step {s : State} (op : Op) : ReachableR cfg p h0 t0 s → WF s op → ReachableR cfg p h0 t0 (step s op).1
+  | restart {s s' : State} (height time : Int) : ReachableR cfg p h0 t0 s → SM.restart s height time = some s' →
+      ReachableR cfg p h0 t0 s'
+
+theorem reachableR_invAll {cfg : Config} {p : Params} {h0 t0 : Int} (hc : CfgOK cfg p) {s : State}
+    (hr : ReachableR cfg p h0 t0 s) : InvAll s := by
+  induction hr with
+  | init => exact reachable_invAll hc Reachable.init
+  | step op _ hw ih => exact step_invAll _ op ih hw
+  | restart height time _ hre ih =>
+    obtain ⟨s'', h1, h2, _⟩ := restart_invAll ih height time
+    rw [hre] at h1; injection h1 with h1; subst h1
+    exact h2
+
+/-- a restart never fails on such a chain -/
+theorem reachableR_restart_succeeds {cfg : Config} {p : Params} {h0 t0 : Int} (hc : CfgOK cfg p) {s : State}
+    (hr : ReachableR cfg p h0 t0 s) (height time : Int) : (SM.restart s height time).isSome := by
+  obtain ⟨s', h1, _⟩ := restart_invAll (reachableR_invAll hc hr) height time
+  rw [h1]; rfl
 
 /-- `Inv` is inductive from any starting state that satisfies it -/
 theorem inv_reachableFrom {s0 s : State} (h0 : Inv s0) (hr : ReachableFrom s0 s) : Inv s := by
